@@ -7,6 +7,14 @@ import (
 	"github.com/trajectoryjp/spatial_id_go/v4/transform"
 )
 
+// rejOpt: a point option — mostly the two valid ones, sometimes an unknown one on either side of the enum (with a valid ID)
+func rejOpt() int64 {
+	if rng.Intn(4) == 0 {
+		return []int64{2, 3, -1, -2, -100, 1 << 40}[rng.Intn(6)]
+	}
+	return int64(rng.Intn(2))
+}
+
 func init() {
 	op("s2qv", func(a []string) string {
 		r, err := transform.ConvertSpatialIDsToQuadkeysAndVerticalIDs(split(a[0]), atoi(a[1]), atoi(a[2]), 0, 0)
@@ -173,10 +181,10 @@ func init() {
 				do("e2qa", join(corrupt(ids(l))), s(hq), s(V+int64(rng.Intn(4))), "25", s(int64(1<<24)))
 			case 14:
 				a := corrupt(ids(l[:1]))
-				do("geom", geomArgs(l[0], a[0], int64(rng.Intn(2)))...)
+				do("geom", geomArgs(l[0], a[0], rejOpt())...)
 			case 15:
 				a := corrupt(spids(spl[:1]))
-				do("geomsp", geomArgs(spl[0], a[0], int64(rng.Intn(2)))...)
+				do("geomsp", geomArgs(spl[0], a[0], rejOpt())...)
 			case 16:
 				a := corrupt(ids(l[:1]))
 				do("shift", a[0], s(int64(rng.Intn(5)-2)), s(int64(rng.Intn(5)-2)), s(int64(rng.Intn(5)-2)))
